@@ -70,15 +70,20 @@ pub enum Conflict {
     Ignore,
 }
 
+/// Per-connection state is kept in small parallel arrays of scalars: a connection id read back
+/// from a heap object is not a constant for CBMC, and `&mut CONNS[c]` on an array of large
+/// structs is a pointer at a symbolic offset (byte-level access over the whole array; measured
+/// 5-6 M SAT variables per harness). The rollback image is a single global: only the holder of
+/// the write lock can have changed anything.
 #[derive(Clone, Copy)]
-pub struct ConnState {
-    pub open: bool,
-    pub in_txn: bool,
-    pub mode: BeginMode,
-    pub has_lock: bool,
-    pub saved: Db,
+pub struct Conns {
+    pub open: [bool; MAXCONN],
+    pub in_txn: [bool; MAXCONN],
+    pub deferred: [bool; MAXCONN],
+    pub has_lock: [bool; MAXCONN],
 }
-pub const NOCONN: ConnState = ConnState { open: false, in_txn: false, mode: BeginMode::Deferred, has_lock: false, saved: EMPTY_DB };
+pub const NOCONNS: Conns = Conns { open: [false; MAXCONN], in_txn: [false; MAXCONN], deferred: [false; MAXCONN], has_lock: [false; MAXCONN] };
+pub static mut SAVED: Db = EMPTY_DB;
 
 /// What the harness can observe about how the glue used the database.
 #[derive(Clone, Copy)]
@@ -124,7 +129,7 @@ pub const MON0: Mon = Mon {
 };
 
 pub static mut DB: Db = EMPTY_DB;
-pub static mut CONNS: [ConnState; MAXCONN] = [NOCONN; MAXCONN];
+pub static mut CONNS: Conns = NOCONNS;
 pub static mut WRITER: usize = MAXCONN; // connection holding the write lock
 pub static mut MON: Mon = MON0;
 /// 1-based index of the rusqlite call that fails (0 = none)
@@ -139,7 +144,8 @@ pub fn mon() -> &'static mut Mon {
 pub fn reset_all() {
     unsafe {
         DB = EMPTY_DB;
-        CONNS = [NOCONN; MAXCONN];
+        CONNS = NOCONNS;
+        SAVED = EMPTY_DB;
         WRITER = MAXCONN;
         MON = MON0;
         FAULT_AT = 0;
@@ -251,13 +257,16 @@ pub fn store(ti: usize, ci: usize, v: Val) -> Val {
 // -------------------------------------------------------------------------------------------------
 // primitives used by the generated statements
 
-fn conn(c: usize) -> &'static mut ConnState {
-    unsafe { &mut CONNS[c] }
+fn conns() -> &'static mut Conns {
+    unsafe { &mut CONNS }
 }
 
 pub fn create_table(c: usize, ti: usize, if_not_exists: bool, same_schema: bool) -> StmtResult {
-    if let Some(e) = write_gate(c) {
-        return e;
+    // CREATE ... IF NOT EXISTS on an existing object only reads the schema: no write lock needed
+    if !(db().t[ti].created && if_not_exists) {
+        if let Some(e) = write_gate(c) {
+            return e;
+        }
     }
     if db().t[ti].created {
         if !if_not_exists {
@@ -276,10 +285,7 @@ pub fn create_table(c: usize, ti: usize, if_not_exists: bool, same_schema: bool)
     db().t[ti].created = true;
     StmtResult::Changed(0)
 }
-pub fn schema_noop(c: usize, ti: usize) -> StmtResult {
-    if let Some(e) = write_gate(c) {
-        return e;
-    }
+pub fn schema_noop(_c: usize, ti: usize) -> StmtResult {
     if !db().t[ti].created {
         return StmtResult::SchemaError;
     }
@@ -297,14 +303,15 @@ pub fn pragma(_c: usize, code: u8, safe: bool) -> StmtResult {
     StmtResult::Row(RowData { ncols: 1, names: ["", "", "", "", "", ""], vals })
 }
 pub fn begin(c: usize, mode: BeginMode) -> StmtResult {
-    let cs = conn(c);
-    if cs.in_txn {
+    let cs = conns();
+    if cs.in_txn[c] {
         return StmtResult::SchemaError; // "cannot start a transaction within a transaction"
     }
     mon().begins += 1;
     match mode {
         BeginMode::Deferred => {
             mon().begin_deferred = true;
+            cs.deferred[c] = true;
         }
         _ => unsafe {
             if WRITER != MAXCONN && WRITER != c {
@@ -313,62 +320,60 @@ pub fn begin(c: usize, mode: BeginMode) -> StmtResult {
                 return StmtResult::Busy;
             }
             WRITER = c;
-            cs.has_lock = true;
+            cs.has_lock[c] = true;
+            SAVED = *db();
+            cs.deferred[c] = false;
         },
     }
-    cs.in_txn = true;
-    cs.mode = mode;
-    cs.saved = *db();
+    cs.in_txn[c] = true;
     StmtResult::Changed(0)
 }
 pub fn commit(c: usize) -> StmtResult {
-    let cs = conn(c);
-    if !cs.in_txn {
+    let cs = conns();
+    if !cs.in_txn[c] {
         return StmtResult::NoTxn;
     }
-    cs.in_txn = false;
-    if cs.has_lock {
+    cs.in_txn[c] = false;
+    if cs.has_lock[c] {
         unsafe {
             WRITER = MAXCONN;
         }
-        cs.has_lock = false;
+        cs.has_lock[c] = false;
     }
     mon().commits += 1;
     StmtResult::Changed(0)
 }
 pub fn rollback(c: usize) -> StmtResult {
-    let cs = conn(c);
-    if !cs.in_txn {
+    let cs = conns();
+    if !cs.in_txn[c] {
         return StmtResult::NoTxn;
     }
-    *db() = cs.saved;
-    cs.in_txn = false;
-    if cs.has_lock {
+    cs.in_txn[c] = false;
+    if cs.has_lock[c] {
         unsafe {
+            *db() = SAVED;
             WRITER = MAXCONN;
         }
-        cs.has_lock = false;
+        cs.has_lock[c] = false;
     }
     StmtResult::Changed(0)
 }
-pub fn read_gate(c: usize) {
-    if !conn(c).in_txn && mon().begins == 0 {
-        // reads in autocommit mode are fine; recorded for the "BEGIN comes first" obligation
-    }
-}
+pub fn read_gate(_c: usize) {}
 /// every write needs the write lock: inside an IMMEDIATE/EXCLUSIVE transaction it is held; a
 /// deferred transaction or an autocommit statement must acquire it now
 pub fn write_gate(c: usize) -> Option<StmtResult> {
-    let cs = conn(c);
+    let cs = conns();
     unsafe {
         if WRITER != MAXCONN && WRITER != c {
             mon().busy = true;
             return Some(StmtResult::Busy);
         }
-        if cs.in_txn {
-            if !cs.has_lock {
+        if cs.in_txn[c] {
+            if !cs.has_lock[c] {
+                // a deferred transaction takes the write lock at its first write
                 WRITER = c;
-                cs.has_lock = true;
+                cs.has_lock[c] = true;
+                SAVED = *db();
             }
         } else {
             mon().write_outside_txn = true;
@@ -861,7 +866,7 @@ impl Connection {
         let mut id = MAXCONN;
         let mut i = 0;
         while i < MAXCONN {
-            if unsafe { !CONNS[i].open } && id == MAXCONN {
+            if !conns().open[i] && id == MAXCONN {
                 id = i;
             }
             i += 1;
@@ -870,10 +875,11 @@ impl Connection {
             mon().capacity = true;
             return Err(Error::Unmodelled);
         }
-        unsafe {
-            CONNS[id] = NOCONN;
-            CONNS[id].open = true;
-        }
+        let cs = conns();
+        cs.open[id] = true;
+        cs.in_txn[id] = false;
+        cs.deferred[id] = false;
+        cs.has_lock[id] = false;
         Ok(Connection { id: id as u8 })
     }
     pub fn execute<P: Params>(&self, sql: &str, params: P) -> Result<usize> {
@@ -908,17 +914,23 @@ impl Connection {
 impl Drop for Connection {
     fn drop(&mut self) {
         let c = self.id as usize;
-        let cs = conn(c);
-        if cs.in_txn {
+        let cs = conns();
+        if cs.in_txn[c] {
             // closing a connection inside a transaction rolls it back
-            *db() = cs.saved;
+            if cs.has_lock[c] {
+                unsafe {
+                    *db() = SAVED;
+                }
+            }
             mon().rollbacks_on_drop += 1;
         }
-        if cs.has_lock {
+        if cs.has_lock[c] {
             unsafe {
                 WRITER = MAXCONN;
             }
         }
-        *cs = NOCONN;
+        cs.open[c] = false;
+        cs.in_txn[c] = false;
+        cs.has_lock[c] = false;
     }
 }
